@@ -2821,6 +2821,8 @@ PIP_Solution_Node::solve(const PIP_Problem& pip,
       // Search for the best pivot row.
       dimension_type pi = not_a_dim;
       dimension_type pj = not_a_dim;
+      // Set when a cached NEGATIVE sign turns out not to be strict.
+      bool reanalyze_signs = false;
       for (dimension_type i = first_negative; i < num_rows; ++i) {
         if (sign[i] != NEGATIVE) {
           continue;
@@ -2828,7 +2830,23 @@ PIP_Solution_Node::solve(const PIP_Problem& pip,
         dimension_type j;
         if (!find_lexico_minimal_column(tableau.s, mapping, basis,
                                         tableau.s[i], 0, j)) {
-          // No positive s_ij was found: problem is unfeasible.
+          // No positive s_ij was found: the problem is unfeasible
+          // where t_i(z) < 0.
+          // NOTE: the cached sign NEGATIVE may only mean `t_i(z) <= 0'
+          // (second refinement of the mixed rows above, rows of cuts):
+          // before giving up, make sure that t_i(z) >= 0 is incompatible
+          // with the context; otherwise the row is mixed and, having no
+          // positive variable coefficient, it will yield the parametric
+          // constraint t_i(z) >= 0.
+          // (A sign obtained from the coefficient of the big parameter
+          // is about big enough values only: it is not questioned.)
+          if ((big_dimension == not_a_dimension()
+               || tableau.t[i].get(big_dimension) == 0)
+              && compatibility_check(ctx, tableau.t[i])) {
+            sign[i] = MIXED;
+            reanalyze_signs = true;
+            break;
+          }
 #ifdef NOISY_PIP_TREE_STRUCTURE
           indent_and_print(std::cerr, indent_level,
                            "No positive pivot: Solution = _|_\n");
@@ -2847,6 +2865,11 @@ PIP_Solution_Node::solve(const PIP_Problem& pip,
             break;
           }
         }
+      }
+
+      if (reanalyze_signs) {
+        // Jump to next iteration: signs are recomputed.
+        continue;
       }
 
 #ifdef VERY_NOISY_PIP
